@@ -521,5 +521,25 @@ Emitting ==
 EmitInv == Emitting => PrintT(<<"VP", ToJson(Behaviour)>>)
 EmitStructInv == Emitting => PrintT(<<"VP", ToJson(StructBehaviour)>>)
 
+(* C12, the design argument checked by TLC itself: with normalised input rows and normalised *)
+(* sum / mixing rows (Scheme 4, 5) every unit of every smooth and decomposable circuit is a  *)
+(* probability distribution: non-negative and summing to one over its own scope              *)
+NormInv ==
+  (Emitting /\ Normalised /\ Len(ops) = 0 /\ SmoothOn(layers, 1..NL) /\ DecompOn(layers, 1..NL))
+  => LET as == AssignSeq
+         tab == TableOf(Pool, 1, 1)
+         sc == OutScopes(Pool, 1) IN
+     \A o \in 1..Len(sc) : \A u \in 1..Len(tab[1][o]) :
+        /\ \A q \in 1..Len(as) : tab[q][o][u][2] = DZero /\ tab[q][o][u][1][1] >= 0
+        /\ LET RECURSIVE S(_)
+                S(q) == IF q = 0 THEN DZero ELSE DAdd(S(q - 1), tab[q][o][u][1])
+                (* the sum over all assignments counts every assignment of the variables *)
+                (* outside the output's scope once: divide by their number               *)
+                outside == {v \in 1..V : v \notin sc[o]}
+                mult == LET RECURSIVE M(_) M(T) == IF T = {} THEN 1
+                                                   ELSE LET v == CHOOSE y \in T : TRUE IN Dom[v] * M(T \ {v})
+                        IN M(outside)
+            IN S(Len(as)) = DInt(mult)
+
 TypeOK == phase \in {"build", "ops", "run"}
 ===============================================================================
